@@ -7,7 +7,7 @@ LEAN_MODULE = "HexProps.C01"
 SCOPE = []
 ORACLE_RULE = "C01: see hx/oracles/framework.py (c01_case): random indicator spec (26 kinds + Amorph wrappers) x stream style x timeframe/fill x schedule on the real code"
 ASSUMPTIONS = ["TZ=UTC for this check"]
-PARTIAL = "proved for ALL 27 shipped indicator classes (CoveredTreeX: the 14 leaf classes incl. Amorph x 20 functions, and every composite - VWAP, STDEV, RSI, ATR, KC, STDEVTHRES, BBANDS, Supertrend, MACD, HMA, STOCH, TSI, ADX) with candle-attribute inputs: leaf classes on the base timeframe unconditionally (equality in PyM); all classes on the base or a collapsing timeframe with or without gap filling as 'the live run returns => the batch run returns the same candles' (C01_trees). Not proved (C01_FULL): inputs that are other indicators' readings, period 1 for HMA/STOCH (index-0 fallback to a child's full calculate()), names that are not ordinary keys; those are covered by correspondence + search only"
+PARTIAL = "proved for ALL 27 shipped indicator classes (CoveredTreeX: the 14 leaf classes incl. Amorph x 20 functions, and every composite - VWAP, STDEV, RSI, ATR, KC, STDEVTHRES, BBANDS, Supertrend, MACD, HMA, STOCH, TSI, ADX) with candle-attribute inputs: leaf classes on the base timeframe unconditionally (equality in PyM); all classes on the base or a collapsing timeframe with or without gap filling as 'the live run returns => the batch run returns the same candles' (C01_trees). and for indicator-valued inputs in the standard pattern: a dependent SMA/EMA/RMA/WMA/ROC member over a source member (SMA..ROC, MACD, KC, Supertrend, BBANDS, STOCH, TSI, ADX) of the same Hexital, chains of any length, any timeframe / fill (C01_chain_covered, C01_chain_any_length). Not proved (C01_FULL): dependent composites and sources without a component instance, members on different timeframes, period 1 for HMA/STOCH (index-0 fallback to a child's full calculate()), names that are not ordinary keys; those are covered by correspondence + search only"
 
 
 def oracle(ctx):
